@@ -1,5 +1,379 @@
+(* C10 lemmas, part 1: induction principle for query objects, soundness of structural
+   equality, list/boolean helpers, unique-name lookup, flattening. *)
 From Coq Require Import ZArith List Bool String Lia.
 From PAFC10 Require Import Model.
 Import ListNotations.
+Open Scope string_scope.
+Open Scope list_scope.
+
+(* ---------- induction principle for the nested inductive qobj ---------- *)
+Section QInd.
+  Variable P : qobj -> Prop.
+  Hypothesis HNoneC : P QNoneC.
+  Hypothesis HVal : forall c v, P (QVal c v).
+  Hypothesis HStr : forall c s, P (QStr c s).
+  Hypothesis HType : forall cls, P (QType cls).
+  Hypothesis HNamed : forall n inner inv, P inner -> P (QNamed n inner inv).
+  Hypothesis HAttr : forall negs a, P (QAttr negs a).
+  Hypothesis HInfo : forall negs k v, P (QInfo negs k v).
+  Hypothesis HJ : forall k ms, Forall P ms -> P (QJ k ms).
+
+  Fixpoint qobj_ind' (q : qobj) : P q :=
+    match q with
+    | QNoneC => HNoneC
+    | QVal c v => HVal c v
+    | QStr c s => HStr c s
+    | QType cls => HType cls
+    | QNamed n inner inv => HNamed n inner inv (qobj_ind' inner)
+    | QAttr negs a => HAttr negs a
+    | QInfo negs k v => HInfo negs k v
+    | QJ k ms =>
+        HJ k ms ((fix go (l : list qobj) : Forall P l :=
+                    match l with
+                    | [] => Forall_nil P
+                    | x :: r => Forall_cons x (qobj_ind' x) (go r)
+                    end) ms)
+    end.
+End QInd.
+
+(* ---------- structural equality is sound ---------- *)
+Lemma cmp_eqb_eq a b : cmp_eqb a b = true -> a = b.
+Proof. destruct a, b; simpl; congruence. Qed.
+Lemma jk_eqb_eq a b : jk_eqb a b = true -> a = b.
+Proof. destruct a, b; simpl; congruence. Qed.
+Lemma opt_str_eqb_eq a b : opt_str_eqb a b = true -> a = b.
+Proof.
+  destruct a, b; simpl; try congruence. intro H. apply String.eqb_eq in H. congruence.
+Qed.
+Lemma acond_eqb_eq a b : acond_eqb a b = true -> a = b.
+Proof.
+  destruct a, b; simpl; try congruence; intro H;
+    try (apply andb_true_iff in H; destruct H as [H1 H2]);
+    try apply String.eqb_eq in H; try apply String.eqb_eq in H1;
+    try apply String.eqb_eq in H2; try apply Z.eqb_eq in H2; try apply opt_str_eqb_eq in H2;
+    congruence.
+Qed.
+
+Lemma qobj_eqb_eq : forall a b, qobj_eqb a b = true -> a = b.
+Proof.
+  induction a as [| | | |n inner inv IHa| | |k ms HF] using qobj_ind'; destruct b; simpl; try congruence; intro E.
+  - apply andb_true_iff in E. destruct E as [H1 H2].
+    apply cmp_eqb_eq in H1. apply Z.eqb_eq in H2. congruence.
+  - apply andb_true_iff in E. destruct E as [H1 H2].
+    apply cmp_eqb_eq in H1. apply String.eqb_eq in H2. congruence.
+  - apply String.eqb_eq in E. congruence.
+  - apply andb_true_iff in E. destruct E as [H12 H3].
+    apply andb_true_iff in H12. destruct H12 as [H1 H2].
+    apply String.eqb_eq in H1. apply IHa in H2. apply Bool.eqb_prop in H3. congruence.
+  - apply andb_true_iff in E. destruct E as [H1 H2].
+    apply Nat.eqb_eq in H1. apply acond_eqb_eq in H2. congruence.
+  - apply andb_true_iff in E. destruct E as [H12 H3].
+    apply andb_true_iff in H12. destruct H12 as [H1 H2].
+    apply Nat.eqb_eq in H1. apply String.eqb_eq in H2. apply String.eqb_eq in H3. congruence.
+  - apply andb_true_iff in E. destruct E as [H1 H2].
+    apply jk_eqb_eq in H1. subst k0. f_equal.
+    revert ms0 H2. induction HF as [|x r Hx Hr IH]; intros ns H2; destruct ns; try congruence.
+    apply andb_true_iff in H2. destruct H2 as [Ha Hb].
+    apply Hx in Ha. apply IH in Hb. congruence.
+Qed.
+
+(* ---------- junction meaning over a list ---------- *)
+Definition jop (k : jk) (a b : bool) : bool := match k with JAnd => a && b | JOr => a || b end.
+Definition jsem {A} (k : jk) (P : A -> bool) (l : list A) : bool :=
+  match k with JAnd => forallb P l | JOr => existsb P l end.
+
+Lemma holds_QJ f k ms o : holds f (QJ k ms) o = jsem k (fun m => holds f m o) ms.
+Proof. destruct k; reflexivity. Qed.
+
+Lemma jsem_app {A} k (P : A -> bool) a b : jsem k P (a ++ b) = jop k (jsem k P a) (jsem k P b).
+Proof. destruct k; simpl; [apply forallb_app | apply existsb_app]. Qed.
+
+Lemma jsem_and_true {A} (P : A -> bool) l : jsem JAnd P l = true <-> (forall x, In x l -> P x = true).
+Proof. simpl. apply forallb_forall. Qed.
+Lemma jsem_or_true {A} (P : A -> bool) l : jsem JOr P l = true <-> (exists x, In x l /\ P x = true).
+Proof. simpl. apply existsb_exists. Qed.
+
+Lemma jsem_ext_in {A} k (P Q : A -> bool) l : (forall x, In x l -> P x = Q x) -> jsem k P l = jsem k Q l.
+Proof.
+  intro H. apply eq_iff_eq_true. destruct k.
+  - rewrite !jsem_and_true. split; intros G x Hx; [rewrite <- H | rewrite H]; auto.
+  - rewrite !jsem_or_true. split; intros [x [Hx G]]; exists x; split; auto; [rewrite <- H | rewrite H]; auto.
+Qed.
+
+Lemma jsem_same_set {A} k (P : A -> bool) l l' : (forall x, In x l <-> In x l') -> jsem k P l = jsem k P l'.
+Proof.
+  intro H. apply eq_iff_eq_true. destruct k.
+  - rewrite !jsem_and_true. split; intros G x Hx; apply G, H, Hx.
+  - rewrite !jsem_or_true. split; intros [x [Hx G]]; exists x; split; auto; apply H, Hx.
+Qed.
+
+Lemma jsem_map {A B} k (g : A -> B) (P : B -> bool) l : jsem k P (map g l) = jsem k (fun x => P (g x)) l.
+Proof.
+  destruct k; simpl; induction l; simpl; auto; rewrite IHl; reflexivity.
+Qed.
+
+Lemma jsem_single {A} k (P : A -> bool) x : jsem k P [x] = P x.
+Proof. destruct k; simpl; [apply andb_true_r | apply orb_false_r]. Qed.
+
+Lemma jsem_partition {A} k (P : A -> bool) (p : A -> bool) l :
+  jsem k P l = jop k (jsem k P (filter (fun x => negb (p x)) l)) (jsem k P (filter p l)).
+Proof.
+  destruct k; simpl; induction l as [|x r IH]; simpl; auto; destruct (p x); simpl; rewrite IH.
+  - destruct (P x); simpl; auto. rewrite andb_false_r. reflexivity.
+  - rewrite andb_assoc. reflexivity.
+  - destruct (P x); simpl; auto. rewrite orb_true_r. reflexivity.
+  - rewrite orb_assoc. reflexivity.
+Qed.
+
+(* a constant-false member kills a non-empty junction *)
+Lemma jsem_const_false {A} k (l : list A) : l <> [] -> jsem k (fun _ => false) l = false.
+Proof. destruct k, l; simpl; try congruence; intros _. induction l; simpl; auto. Qed.
+
+(* distributing a common conjunct *)
+Lemma jsem_and_split {A} (a h : A -> bool) l :
+  jsem JAnd (fun x => a x && h x) l = jsem JAnd a l && jsem JAnd h l.
+Proof.
+  simpl. induction l as [|x r IH]; simpl; auto. rewrite IH.
+  destruct (a x), (h x), (forallb a r), (forallb h r); reflexivity.
+Qed.
+Lemma jsem_or_factor {A} (c : bool) (h : A -> bool) l :
+  jsem JOr (fun x => c && h x) l = c && jsem JOr h l.
+Proof.
+  simpl. induction l as [|x r IH]; simpl.
+  - rewrite andb_false_r. reflexivity.
+  - rewrite IH. destruct c, (h x); reflexivity.
+Qed.
+
+(* ---------- strings: membership, nodup ---------- *)
+Lemma mem_str_in s l : mem_str s l = true <-> In s l.
+Proof.
+  induction l as [|x r IH]; simpl; [split; [congruence | tauto]|].
+  rewrite orb_true_iff, IH, String.eqb_eq. tauto.
+Qed.
+Lemma nodup_str_in s l : In s (nodup_str l) <-> In s l.
+Proof.
+  induction l as [|x r IH]; simpl; [tauto|].
+  destruct (mem_str x r) eqn:E.
+  - rewrite IH. apply mem_str_in in E. split; [tauto | intros [H | H]; subst; auto].
+  - simpl. rewrite IH. tauto.
+Qed.
+
+(* ---------- lookup under unique names ---------- *)
+Lemma lookup_none_notin {A} n (l : list (string * A)) : lookup n l = None -> ~ In n (map fst l).
+Proof.
+  induction l as [|[k v] r IH]; simpl; [tauto|].
+  destruct (String.eqb k n) eqn:E; [congruence|].
+  intros H [G | G]; [subst; rewrite String.eqb_refl in E; congruence | apply IH; auto].
+Qed.
+
+Lemma exists_unique_name {A} (P : A -> bool) n (l : list (string * A)) :
+  str_nodup (map fst l) = true ->
+  existsb (fun nc => String.eqb (fst nc) n && P (snd nc)) l =
+  match lookup n l with Some c => P c | None => false end.
+Proof.
+  induction l as [|[k v] r IH]; simpl; auto.
+  intro H. apply andb_true_iff in H. destruct H as [H1 H2].
+  destruct (String.eqb k n) eqn:E; simpl.
+  - apply String.eqb_eq in E. subst k.
+    destruct (P v); simpl; auto.
+    (* no other child carries the name *)
+    apply negb_true_iff in H1.
+    clear IH H2. induction r as [|[k' v'] r' IH']; simpl in *; auto.
+    apply orb_false_iff in H1. destruct H1 as [Ha Hb].
+    rewrite Ha. simpl. apply IH'. exact Hb.
+  - apply IH. exact H2.
+Qed.
+
+Lemma lookup_in {A} n (l : list (string * A)) c : lookup n l = Some c -> In (n, c) l.
+Proof.
+  induction l as [|[k v] r IH]; simpl; [congruence|].
+  destruct (String.eqb k n) eqn:E.
+  - apply String.eqb_eq in E. intro H. inversion H. subst. auto.
+  - intro H. right. auto.
+Qed.
+
+Lemma wf_child o n c : wf_obj o = true -> lookup n (kids o) = Some c -> wf_obj c = true.
+Proof.
+  destruct o; simpl; try congruence.
+  intros H L. apply andb_true_iff in H. destruct H as [_ H].
+  rewrite forallb_forall in H. apply lookup_in in L. apply (H (n, c)). exact L.
+Qed.
+
+Lemma wf_names o : wf_obj o = true -> str_nodup (map fst (kids o)) = true.
+Proof.
+  destruct o; simpl; auto. intro H. apply andb_true_iff in H. tauto.
+Qed.
+
+(* meaning of an un-inverted / inverted NamedQuery at a well-formed object *)
+Lemma holds_named f n inner inv o :
+  wf_obj o = true ->
+  holds f (QNamed n inner inv) o =
+  xorb inv (match lookup n (kids o) with
+            | Some c => in_tabs (mtabs inner) c && holds f inner c
+            | None => false
+            end).
+Proof.
+  intro W. simpl. f_equal.
+  rewrite <- (exists_unique_name (fun c => in_tabs (mtabs inner) c && holds f inner c) n (kids o) (wf_names o W)).
+  apply jsem_ext_in with (k := JOr). intros x _. rewrite andb_assoc. reflexivity.
+Qed.
+
+(* ---------- tables ---------- *)
+Lemma tabs_ext a b : t_none a = t_none b -> t_val a = t_val b -> t_str a = t_str b -> a = b.
+Proof. destruct a, b; simpl; congruence. Qed.
+
+Definition tabs_union (l : list qobj) : tabs := fold_right (fun m acc => tabs_or (mtabs m) acc) tabs0 l.
+
+Lemma mtabs_QJ k ms : mtabs (QJ k ms) = tabs_union ms.
+Proof. reflexivity. Qed.
+
+Lemma tabs_union_none l : t_none (tabs_union l) = existsb (fun m => t_none (mtabs m)) l.
+Proof. induction l; simpl; auto. rewrite IHl. reflexivity. Qed.
+Lemma tabs_union_val l : t_val (tabs_union l) = existsb (fun m => t_val (mtabs m)) l.
+Proof. induction l; simpl; auto. rewrite IHl. reflexivity. Qed.
+Lemma tabs_union_str l : t_str (tabs_union l) = existsb (fun m => t_str (mtabs m)) l.
+Proof. induction l; simpl; auto. rewrite IHl. reflexivity. Qed.
+
+Lemma tabs_union_app a b : tabs_union (a ++ b) = tabs_or (tabs_union a) (tabs_union b).
+Proof.
+  apply tabs_ext; simpl; rewrite ?tabs_union_none, ?tabs_union_val, ?tabs_union_str; apply existsb_app.
+Qed.
+
+Lemma tabs_union_same_set l l' : (forall x, In x l <-> In x l') -> tabs_union l = tabs_union l'.
+Proof.
+  intro H. apply tabs_ext; rewrite ?tabs_union_none, ?tabs_union_val, ?tabs_union_str;
+    apply (jsem_same_set JOr); exact H.
+Qed.
+
+Lemma tabs_union_zero l : (forall x, In x l -> mtabs x = tabs0) -> tabs_union l = tabs0.
+Proof.
+  induction l as [|x r IH]; simpl; auto. intro H.
+  rewrite (H x (or_introl eq_refl)), IH; auto.
+Qed.
+
+Lemma tabs_or_0_r a : tabs_or a tabs0 = a.
+Proof. destruct a as [x y z]; destruct x, y, z; reflexivity. Qed.
+Lemma tabs_or_0_l a : tabs_or tabs0 a = a.
+Proof. destruct a; reflexivity. Qed.
+
+Lemma in_tabs_or a b c : in_tabs (tabs_or a b) c = in_tabs a c && in_tabs b c.
+Proof.
+  destruct a as [a1 a2 a3], b as [b1 b2 b3]; unfold in_tabs; simpl.
+  destruct a1, a2, a3, b1, b2, b3, c; reflexivity.
+Qed.
+Lemma in_tabs_0 c : in_tabs tabs0 c = true.
+Proof. reflexivity. Qed.
+Lemma in_tabs_union l c : in_tabs (tabs_union l) c = forallb (fun m => in_tabs (mtabs m) c) l.
+Proof.
+  induction l as [|x r IH]; simpl; auto. rewrite in_tabs_or, IH. reflexivity.
+Qed.
+
+Lemma tabs_eqb_eq a b : tabs_eqb a b = true -> a = b.
+Proof.
+  unfold tabs_eqb. intro H. apply andb_true_iff in H. destruct H as [H12 H3].
+  apply andb_true_iff in H12. destruct H12 as [H1 H2].
+  apply tabs_ext; apply Bool.eqb_prop; assumption.
+Qed.
+Lemma tabs_or_idem a : tabs_or a a = a.
+Proof. destruct a as [x y z]; destruct x, y, z; reflexivity. Qed.
+
+Lemma all_same_tabs_union x r : all_same_tabs (x :: r) = true ->
+  tabs_union (x :: r) = mtabs x /\ (forall y, In y (x :: r) -> mtabs y = mtabs x).
+Proof.
+  simpl. intro H. rewrite forallb_forall in H.
+  assert (G : forall y, In y r -> mtabs y = mtabs x).
+  { intros y Hy. symmetry. apply tabs_eqb_eq. apply H. exact Hy. }
+  split.
+  - clear H. induction r as [|y r' IH]; simpl.
+    + apply tabs_or_0_r.
+    + simpl in IH. rewrite (G y (or_introl eq_refl)).
+      assert (E : tabs_or (mtabs x) (tabs_union r') = mtabs x).
+      { apply IH. intros z Hz. apply G. right. exact Hz. }
+      rewrite E. apply tabs_or_idem.
+  - intros y [Hy | Hy]; [subst; reflexivity | apply G; exact Hy].
+Qed.
+
+(* ---------- flattening ---------- *)
+Lemma flatten_QJ_same k ms : flatten k (QJ k ms) = flat_map (flatten k) ms.
+Proof.
+  simpl. assert (E : jk_eqb k k = true). { destruct k; reflexivity. } rewrite E.
+  induction ms as [|x r IH]; simpl; [reflexivity | rewrite IH; reflexivity].
+Qed.
+Lemma flatten_other k q : (forall ms, q <> QJ k ms) -> flatten k q = [q].
+Proof.
+  destruct q; simpl; auto. intro H.
+  destruct (jk_eqb k k0) eqn:E; auto. apply jk_eqb_eq in E. subst. exfalso. apply (H ms). reflexivity.
+Qed.
+
+Lemma jsem_flat_map {A B} k (P : B -> bool) (g : A -> list B) l :
+  jsem k P (flat_map g l) = jsem k (fun x => jsem k P (g x)) l.
+Proof.
+  induction l as [|x r IH]; simpl; [destruct k; reflexivity|].
+  rewrite jsem_app, IH. destruct k; reflexivity.
+Qed.
+
+Lemma flatten_sem f k o : forall q, jsem k (fun m => holds f m o) (flatten k q) = holds f q o.
+Proof.
+  induction q as [| | | |n inner inv IHq| | |k' ms HF] using qobj_ind';
+    try (rewrite flatten_other by (intros; congruence); rewrite jsem_single; reflexivity).
+  destruct (jk_eqb k k') eqn:E.
+  - apply jk_eqb_eq in E. subst k'. rewrite flatten_QJ_same, jsem_flat_map, holds_QJ.
+    apply jsem_ext_in. intros x Hx. rewrite Forall_forall in HF. apply HF. exact Hx.
+  - rewrite flatten_other; [rewrite jsem_single; reflexivity|].
+    intros ms' Hq. inversion Hq. subst.
+    match goal with E' : jk_eqb ?a ?a = false |- _ => destruct a; simpl in E'; congruence end.
+Qed.
+
+Lemma flatten_tabs k : forall q, tabs_union (flatten k q) = mtabs q.
+Proof.
+  induction q as [| | | |n inner inv IHq| | |k' ms HF] using qobj_ind';
+    try (rewrite flatten_other by (intros; congruence); simpl; apply tabs_or_0_r).
+  destruct (jk_eqb k k') eqn:E.
+  - apply jk_eqb_eq in E. subst k'. rewrite flatten_QJ_same, mtabs_QJ.
+    induction HF as [|x r Hx Hr IH]; simpl; auto.
+    rewrite tabs_union_app, Hx, IH. reflexivity.
+  - rewrite flatten_other; [simpl; apply tabs_or_0_r|].
+    intros ms' Hq. inversion Hq. subst.
+    match goal with E' : jk_eqb ?a ?a = false |- _ => destruct a; simpl in E'; congruence end.
+Qed.
+
+Lemma flat_map_flatten_sem f k o conds :
+  jsem k (fun m => holds f m o) (flat_map (flatten k) conds) = jsem k (fun m => holds f m o) conds.
+Proof.
+  rewrite jsem_flat_map. apply jsem_ext_in. intros x _. apply flatten_sem.
+Qed.
+Lemma flat_map_flatten_tabs k conds : tabs_union (flat_map (flatten k) conds) = tabs_union conds.
+Proof.
+  induction conds as [|x r IH]; simpl; auto.
+  rewrite tabs_union_app, flatten_tabs, IH. reflexivity.
+Qed.
+
+(* ---------- de-duplication keeps the set ---------- *)
+Lemma mem_q_in q l : mem_q q l = true -> In q l.
+Proof.
+  induction l as [|x r IH]; simpl; [congruence|].
+  intro H. apply orb_true_iff in H. destruct H as [H | H].
+  - apply qobj_eqb_eq in H. auto.
+  - auto.
+Qed.
+Lemma dedupe_in q l : In q (dedupe l) <-> In q l.
+Proof.
+  induction l as [|x r IH]; simpl; [tauto|].
+  destruct (mem_q x r) eqn:E.
+  - rewrite IH. split; [tauto|]. intros [H | H]; [subst; apply mem_q_in; exact E | exact H].
+  - simpl. rewrite IH. tauto.
+Qed.
+
+(* ---------- map_result ---------- *)
+Lemma map_result_ok {A B} (g : A -> result B) l ys :
+  map_result g l = Ok ys -> Forall2 (fun x y => g x = Ok y) l ys.
+Proof.
+  revert ys. induction l as [|x r IH]; simpl; intros ys H.
+  - inversion H. constructor.
+  - destruct (g x) eqn:E; simpl in H; try congruence.
+    destruct (map_result g r) eqn:E'; simpl in H; try congruence.
+    inversion H. subst. constructor; auto.
+Qed.
+
 Lemma iter_negb_S n b : iter_negb (S n) b = negb (iter_negb n b).
 Proof. reflexivity. Qed.
